@@ -33,6 +33,7 @@ namespace vfs {
   // open streams: handle = file index + 1 ; position = (record, token)
   int cur_rec[MAXF], cur_tok[MAXF];
   int opened[MAXF];
+  double handed[MAXF * MAXR][9];   // the numbers the file model handed out (record, token)
   int ntok(int g) { return 4 + 5 * npart[g]; }
   int file_of_name(const char * s, size_t n) { return (n == 2 && s[0] == 'f' && s[1] >= '0' && s[1] < '0' + MAXF) ? s[1] - '0' : -1; }
   bool at_end(int f) { return cur_rec[f] >= nrec[f]; }
@@ -77,7 +78,8 @@ extern "C" {
 #endif
     int g = vfs::base[f] + vfs::cur_rec[f], t = vfs::cur_tok[f];
     if (t == 2) return 0; // the generator label is not a number
-    *v = (t == 1) ? 100.0 + g : 1000.0 * g + t;
+    *v = (t == 1) ? 100.1 + g : 1000.0 * g + t + 0.3;   // not representable in single precision: a reader that narrows a field is seen
+    if (g < MAXF * MAXR && t < 9) vfs::handed[g][t] = *v;
     vfs::advance(f);
     return 1;
   }
@@ -162,7 +164,8 @@ extern "C" void harness()
       if (hn) { if (start >= total && total > 0) VASSERT(!threw, "C11 [start_event at or beyond the end of the stream]: a next event is announced but loading it fails"); else VASSERT(!threw, "C11: whenever a next event is announced, loading it succeeds"); }
       if (!threw) {
         VASSERT(next < hi, "C11: no event is delivered beyond the window");
-        VASSERT(ev.get_time() == 100.0 + next, "C11: events are delivered in order, starting at start_event (identity by time stamp)");
+        VASSERT(ev.get_time() == 100.1 + next, "C11: events are delivered in order, starting at start_event, with the stored event time (double precision)");
+        if (!ev.get_particles().empty()) { VASSERT(next < MAXF * MAXR && ev.get_particles()[0].get_time() == vfs::handed[next][5] && ev.get_particles()[0].get_px() == vfs::handed[next][6] && ev.get_particles()[0].get_pz() == vfs::handed[next][8], "C11: particle time and momentum are the stored values (double precision)"); }
         VASSERT((int)ev.get_particles().size() == vfs::npart[next < MAXF * MAXR ? next : 0], "C11: particle count of the delivered record");
         const std::string & gname = ev.get_generator();
         VASSERT(gname.size() == 2 && gname[0] == 'G' && gname[1] == (char)('0' + next), "C11: generator label of the delivered record");
